@@ -114,6 +114,14 @@ def judge(ctx, case, res):
             return
         # arbitrate with the reference compilers
         st_, a, b = ref_run(ctx, d, path, target, std)
+        if st_ == "discard" and a.startswith("ref-reject") and expect is not None and case.get("profile") == "input":
+            # a recorded reproducer in a dialect the installed references do not know (C23 `nullptr`): its stated expectation decides
+            if not (kind == "ok" and lines == expect and rc == want_rc):
+                res.fail = dict(sig="", msg="observable behaviour differs from the recorded expectation (target %s): cproc %s %r, expected %r"
+                                % (target, kind, lines[:6] if lines else detail[:200], expect[:6]), input=case["src"])
+            else:
+                res.keys.append(sha(src))
+            return
         if st_ == "discard":
             res.discard.append(a)
             if os.environ.get("VERIF_DUMP_DISCARDS"):
